@@ -55,6 +55,7 @@ DomainSetDef ==
      ds2 |-> [rules |-> {"domain:www.example.com", "keyword:ads"}, padD |-> 0, padS |-> 0],
      dsbig |-> [rules |-> {"domain:other.test", "suffix:example.net"},
                 padD |-> MaxLinearDomains + 1, padS |-> MaxLinearSuffixes + 1],
+     dsmid |-> [rules |-> {"domain:other.test"}, padD |-> MaxLinearDomains - 4, padS |-> MaxLinearSuffixes - 1],
      dskw |-> [rules |-> {"keyword:example"}, padD |-> 0, padS |-> 0]]
 
 -----------------------------------------------------------------------------
@@ -72,11 +73,13 @@ PortCat ==
     ("adj" :> P(<<999>>, <<<<1000, 2000>>>>, 0)) @@                \* merges into 999-2000
     ("dup" :> P(<<443, 443>>, <<<<443, 443>>>>, 0)) @@             \* duplicates, still 1 port
     ("lo" :> P(<<1>>, <<>>, 0)) @@
+    ("top" :> P(<<65535>>, <<>>, 0)) @@                            \* 1 port in the last word of the bit set
     ("hi" :> P(<<>>, <<<<65534, 65535>>>>, 0)) @@
     ("r16" :> P(<<443>>, <<>>, MaxRangeSet - 1)) @@                \* exactly MaxRangeSet ranges -> PortRangeSet
     ("r17" :> P(<<443>>, <<>>, MaxRangeSet)) @@                    \* one more          -> PortSet (bit set)
     ("big" :> P(<<443, 1>>, <<<<1000, 2000>>, <<65534, 65535>>>>, MaxRangeSet + 4)) @@
     ("blk" :> P(<<63, 64, 128>>, <<<<191, 193>>, <<443, 443>>>>, MaxRangeSet)) @@   \* word boundaries of the bit set
+    ("blkR" :> P(<<63, 64, 128>>, <<<<191, 193>>, <<443, 443>>>>, 0)) @@            \* the same as a range set
     ("allbut" :> P(<<>>, <<<<1, 442>>, <<444, 65535>>>>, 0)) @@
     ("all" :> P(<<>>, <<<<1, 65535>>>>, 0)) @@                     \* refused: pointless
     ("zero" :> P(<<0>>, <<>>, 0))                                  \* refused: ErrZeroPort
@@ -95,6 +98,8 @@ DomCat ==
     ("-" :> Dm({}, {}, 0)) @@
     ("l" :> Dm({"example.com"}, {}, 0)) @@                                   \* linear matcher
     ("L" :> Dm({"example.com", "other.test"}, {}, MaxLinearDomains)) @@      \* above the threshold: map
+    ("M" :> Dm({"example.com"}, {}, MaxLinearDomains - 6)) @@                \* a longer list, still linear
+    ("mid" :> Dm({}, {"dsmid"}, 0)) @@                                       \* just below the thresholds
     ("s1" :> Dm({}, {"ds1"}, 0)) @@
     ("s2" :> Dm({}, {"ds2"}, 0)) @@
     ("big" :> Dm({}, {"dsbig"}, 0)) @@
